@@ -54,6 +54,8 @@ class Report:
         self.explanation: str = ""
         self.not_decided: str = ""
         self.distinct: set = set()
+        self.extra: Dict[str, Any] = {}
+        self.deferred_errors: List[str] = []
 
     # ----------------------------------------------------------- recording
     def rule(self, rule_id: str, description: str, floor: int = 1) -> str:
@@ -92,6 +94,27 @@ class Report:
 
     def note(self, text: str) -> None:
         self.notes.append(text)
+
+    def absorb(self, sub: "Report", rule: str, only_rules: tuple, what: str) -> None:
+        """Re-state, under ``rule`` of this report, the obligations of another property's rules that this property also rests on."""
+        n_ok = sum(st.discharged for rid, st in sub.rules.items() if rid in only_rules)
+        for f in sub.findings:
+            if f.rule in only_rules:
+                self.violation(rule, f.module, f.qualname, f"[{f.rule}] {f.construct}", f.message, f.where)
+        if n_ok:
+            st = self._touch(rule)
+            st.instances += n_ok
+            st.discharged += n_ok
+            self.distinct.add((rule, what))
+            if len(st.samples) < 4:
+                st.samples.append(f"{what}: {n_ok} obligations of {', '.join(only_rules)} discharged")
+        self.functions |= sub.functions
+        self.modules |= sub.modules
+        self.deferred_errors.extend(sub.deferred_errors)
+
+    def defer_error(self, text: str) -> None:
+        """An idiom one rule could not interpret: the run ends as ANALYSIS-ERROR (exit 2) unless another rule located a violation."""
+        self.deferred_errors.append(text)
 
     def analysed(self, *funcs: Any) -> None:
         for f in funcs:
@@ -144,6 +167,10 @@ class Report:
         wall = time.time() - self.t0
         replay_path = Path(os.environ.get("VERIF_EVIDENCE_DIR", VERIF / "reports")) / f"{self.pid}.replay.json" if os.environ.get("VERIF_EVIDENCE_DIR") else VERIF / "reports" / f"{self.pid}.json"
         code = 0
+        if self.deferred_errors:
+            for d in self.deferred_errors:
+                print(f"ANALYSIS-ERROR: {self.pid}: {d}")
+            code = 2
         if vacuous:
             for rid, st in vacuous:
                 print(f"ANALYSIS-ERROR: rule {rid} matched {st.instances} instance(s), below the floor {st.floor} confirmed by hand: {st.description}")
@@ -204,6 +231,7 @@ class Report:
                 "notes": self.notes,
                 "samples": samples[:40] or [{"rule": "-", "obligation": "none"}],
                 "exhaustive": False,
+                **self.extra,
             },
             "assumptions": self.assumptions,
             "wall_s": round(wall, 3),
